@@ -27,12 +27,14 @@ def script_for(frag, kind, variables):
     lines = ['echo "frag=%s"' % frag]
     for v in variables:
         lines.append('echo "%s=${%s-<unset>}"' % (v, v))
+    # a marker file whose NAME depends on the variable values: leftovers of another variant stay visible
+    markers = "".join(': > "m-%s-$(printf \'%%s\' "${%s-}" | sha1sum | cut -c1-8).marker"\n' % (v, v) for v in variables)
     lines.append('for a in "$@" ; do [ -d "$a" ] || continue ; ( cd "$a" && find . -type f | LC_ALL=C sort | while read f ; do echo "in:$f:$(sha1sum < "$f" | cut -c1-40)" ; done ) ; done')
     hooks = ('rm -f partial-*.txt\n'
              'if [ "${BOBV_FAIL:-}" = "%s" ]; then echo partial > partial-%s.txt; exit 1; fi\n'
              'if [ "${BOBV_KILL:-}" = "%s" ]; then echo partial > partial-%s.txt; kill -9 "$(cat "$BOBV_PIDFILE")"; sleep 5; fi\n'
              % (frag, frag, frag, frag))
-    body = hooks + "{\n" + "\n".join("  " + l for l in lines) + "\n} > result-%s.txt\n" % frag
+    body = hooks + markers + "{\n" + "\n".join("  " + l for l in lines) + "\n} > result-%s.txt\n" % frag
     return body
 
 
